@@ -301,6 +301,7 @@ class Value(cssutils.util._NewBase):
 
     def _setValue(self, value):
         # TODO: check!
+        self._checkReadonly()
         self._value = value
 
     value = property(
@@ -650,6 +651,7 @@ class URIValue(Value):
 
     def _setUri(self, uri):
         # TODO: check?
+        self._checkReadonly()
         self._value = uri
 
     uri = property(
